@@ -21,6 +21,9 @@ class Patches:
         self._undo.append((obj, name, old))
         return old
 
+    def has(self, obj, name):
+        return hasattr(obj, name)
+
     def undo(self):
         while self._undo:
             obj, name, old = self._undo.pop()
@@ -113,8 +116,11 @@ class Monitors:
             self._orig_registry[name] = (fn, pats)
             reg[name] = (self._wrap_rule(name, fn), pats)
 
-        orig_match = m._match_regex
         mon = self
+        self.missing = [n for n in ("_match_regex", "_preprocess_string", "timeout_", "apply_postprocessing_rules") if not hasattr(m, n)]
+        # an attach point that a refactoring removed or renamed is recorded, not fatal: the checks that need what it
+        # observes turn inconclusive (Monitors.need), the others go on
+        orig_match = getattr(m, "_match_regex", None)
 
         def _match_regex(txt, regexes):
             res = orig_match(txt, regexes)
@@ -128,9 +134,10 @@ class Monitors:
             mon.events["match_regex_call"] += 1
             return res
 
-        self.p.set(m, "_match_regex", _match_regex)
+        if orig_match is not None:
+            self.p.set(m, "_match_regex", _match_regex)
 
-        orig_pre = m._preprocess_string
+        orig_pre = getattr(m, "_preprocess_string", None)
 
         def _preprocess_string(txt):
             r = orig_pre(txt)
@@ -138,9 +145,10 @@ class Monitors:
             mon.events["preprocess_call"] += 1
             return r
 
-        self.p.set(m, "_preprocess_string", _preprocess_string)
+        if orig_pre is not None:
+            self.p.set(m, "_preprocess_string", _preprocess_string)
 
-        orig_timeout = m.timeout_
+        orig_timeout = getattr(m, "timeout_", None)
 
         def timeout_(t):
             f = orig_timeout(t)
@@ -156,9 +164,10 @@ class Monitors:
 
             return t_fun
 
-        self.p.set(m, "timeout_", timeout_)
+        if orig_timeout is not None:
+            self.p.set(m, "timeout_", timeout_)
 
-        orig_post = m.apply_postprocessing_rules
+        orig_post = getattr(m, "apply_postprocessing_rules", None)
 
         def apply_postprocessing_rules(ts, art):
             res = orig_post(ts, art)
@@ -168,7 +177,8 @@ class Monitors:
                 mon.prov_keep.append(res)
             return res
 
-        self.p.set(m, "apply_postprocessing_rules", apply_postprocessing_rules)
+        if orig_post is not None:
+            self.p.set(m, "apply_postprocessing_rules", apply_postprocessing_rules)
 
     def _wrap_rule(self, name, fn):
         mon = self
@@ -209,6 +219,13 @@ class Monitors:
         monitored.__name__ = getattr(fn, "__name__", "wrapper")
         monitored.__wrapped_rule__ = fn
         return monitored
+
+    def need(self, *names):
+        """None if all these attach points exist, else an inconclusive result naming the missing ones"""
+        miss = [n for n in names if n in self.missing]
+        if miss:
+            return {"st": "inconc", "msg": "attach point(s) %s no longer exist in ctparse.ctparse: what they observe is needed to decide this case" % miss}
+        return None
 
     def uninstall(self):
         reg = self.L.registry
